@@ -70,6 +70,11 @@ def prior_content(rng, st, which):
     if which == "foreign":
         return "@@ SPDX-FileCopyrightText: 2001 Foreign Holder\n@@ SPDX-License-Identifier: 0BSD\n\nK1 code\n", \
             {"SPDX-FileCopyrightText: 2001 Foreign Holder"}, {"0BSD"}
+    if which == "sfx":
+        # a script stub followed by packed data (self-extracting archive): text for whoever sniffs the first 512 bytes, NUL-ridden
+        # for whoever looks at more - annotate and the linter must agree on what it is
+        stub = "".join(f"K{i} stub line of the installer script\n" for i in range(20))
+        return stub + "ustar\x00" + "\x00" * 1500 + "\x01\x02\x03\x7f" * 200 + "\nK99 end\n", set(), set()
     if which == "longcr":
         # classic Mac line endings and more than one header window of text
         return "".join(f"K{i} code line of a long CR-only file\r" for i in range(160)), set(), set()
@@ -107,13 +112,13 @@ def one(res, ctx, root, rng, t, forced_style, idx, sample=False):
     f = d / fname
     binary = t is not None and rng.random() < 0.08
     uncomm = t is not None and (t["uncommentable"] or t["empty"])
-    which = rng.choice(["empty", "code", "foreign", "own", "own", "longcr", "ignoreblock", "ignoreblock+own", "own+ignoreblock", "ignoreblock2", "ignoreblock-endstart"]) if st is not None and not uncomm else rng.choice(["empty", "code"])
+    which = rng.choice(["empty", "code", "foreign", "own", "own", "longcr", "ignoreblock", "ignoreblock+own", "own+ignoreblock", "ignoreblock2", "ignoreblock-endstart", "sfx"]) if st is not None and not uncomm else rng.choice(["empty", "code"])
     if binary:
         f.write_bytes(trees.BINARY_BLOB)
         prev_c, prev_l = set(), set()
     else:
         body, prev_c, prev_l = prior_content(rng, st, which) if st else (rng.choice(["", "K1 code\n"]), set(), set())
-        if (uncomm or t is None and not forced_style) and (which in ("foreign", "own") or which.startswith(("ignoreblock", "own+"))):
+        if (uncomm or t is None and not forced_style) and (which in ("foreign", "own", "sfx") or which.startswith(("ignoreblock", "own+"))):
             body, prev_c, prev_l, which = "K1 code\n", set(), set(), "code"
         with open(f, "w", encoding="utf-8", newline="") as fp:
             fp.write(body)
@@ -384,7 +389,7 @@ def run_case(case, ctx):
 
 
 NEEDED_CELLS = ["content:own", "content:foreign", "content:longcr", "content:ignoreblock", "content:ignoreblock+own", "content:own+ignoreblock",
-                "content:ignoreblock2", "content:ignoreblock-endstart", "content:binary", "multi:with-files-that-cannot-be-annotated",
+                "content:ignoreblock2", "content:ignoreblock-endstart", "content:binary", "content:sfx", "multi:with-files-that-cannot-be-annotated",
                 "template:custom-html", "template:nocontrib", "multi:with-dot-license-only-files"]
 
 
